@@ -91,6 +91,7 @@ type TypeContract struct {
 	Pkg       string
 	Name      string
 	Immutable map[string]bool
+	Stable    map[string]bool // fields assumed untouched by arbitrary callees (ownership assumption), no write check
 	Guarded   map[string]string // field -> mutex field
 	Ghost     map[string]*GhostField
 	LockInv   map[string][]*LockInv // mutex field -> invariants
@@ -129,11 +130,12 @@ type Contracts struct {
 	Lemmas  map[string][]*Clause
 	GlobalInv map[string][]*Clause // pkgpath.name -> invariants
 	Ifaces  map[string]*FuncContract // key: pkg.I.Method
+	Externs map[string]*FuncContract // key: ssa function String(), e.g. (*net/http.Request).Cookie
 	Files   []string
 	Nclause int
 }
 
-var keywordRe = regexp.MustCompile(`^(spec|pred|axiom|lemma|globalinv|type|func|iface|functype|props|atomic|holds|at_call|requires|ensures|ensures_panic|ghost_ensures|modifies|loop|assume|nopanic|maypanic|trusted|pure|params|immutable|guarded_by|ghost|lockinv|extsync|mutators|setup|strings|noinline)\b`)
+var keywordRe = regexp.MustCompile(`^(spec|pred|axiom|lemma|globalinv|type|func|iface|functype|extern|props|atomic|holds|at_call|requires|ensures|ensures_panic|ghost_ensures|modifies|loop|assume|nopanic|maypanic|trusted|pure|params|immutable|stable|guarded_by|ghost|lockinv|extsync|mutators|setup|strings|noinline)\b`)
 
 var labelRe = regexp.MustCompile(`^([A-Za-z_][A-Za-z_0-9]*):([^:]|$)`)
 var propsRe = regexp.MustCompile(`^\{([A-Z0-9, ]+)\}\s*`)
@@ -141,7 +143,7 @@ var propsRe = regexp.MustCompile(`^\{([A-Z0-9, ]+)\}\s*`)
 func NewContracts() *Contracts {
 	return &Contracts{
 		Funcs: map[string]*FuncContract{}, Types: map[string]*TypeContract{}, Specs: map[string]*SpecFunc{},
-		Preds: map[string]*PredDef{}, GlobalInv: map[string][]*Clause{}, Axioms: map[string][]*Clause{}, Lemmas: map[string][]*Clause{}, Ifaces: map[string]*FuncContract{},
+		Preds: map[string]*PredDef{}, GlobalInv: map[string][]*Clause{}, Axioms: map[string][]*Clause{}, Lemmas: map[string][]*Clause{}, Ifaces: map[string]*FuncContract{}, Externs: map[string]*FuncContract{},
 	}
 }
 
@@ -263,7 +265,7 @@ func (cs *Contracts) LoadContractFile(path, pkg string) error {
 			}
 			curF, curT = nil, nil
 		case "type":
-			curT = &TypeContract{Pkg: pkg, Name: rest, Immutable: map[string]bool{}, Guarded: map[string]string{}, Ghost: map[string]*GhostField{}, LockInv: map[string][]*LockInv{}, Mutators: map[string]bool{}, SetupOnly: map[string]bool{}}
+			curT = &TypeContract{Pkg: pkg, Name: rest, Immutable: map[string]bool{}, Stable: map[string]bool{}, Guarded: map[string]string{}, Ghost: map[string]*GhostField{}, LockInv: map[string][]*LockInv{}, Mutators: map[string]bool{}, SetupOnly: map[string]bool{}}
 			tp := pkg
 			name := rest
 			if i := strings.LastIndex(rest, "."); i >= 0 { // foreign type: pkgpath.T
@@ -272,10 +274,12 @@ func (cs *Contracts) LoadContractFile(path, pkg string) error {
 			}
 			cs.Types[tp+"."+name] = curT
 			curF = nil
-		case "func", "iface", "functype":
+		case "func", "iface", "functype", "extern":
 			curF = &FuncContract{Pkg: pkg, Name: rest, Kind: kw, Loops: map[int]*LoopContract{}, File: path, Line: l.line}
 			if kw == "func" {
 				cs.Funcs[pkg+"."+rest] = curF
+			} else if kw == "extern" {
+				cs.Externs[rest] = curF
 			} else {
 				cs.Ifaces[rest] = curF
 			}
@@ -286,6 +290,13 @@ func (cs *Contracts) LoadContractFile(path, pkg string) error {
 			}
 			for _, f := range strings.Fields(strings.ReplaceAll(rest, ",", " ")) {
 				curT.Immutable[f] = true
+			}
+		case "stable":
+			if curT == nil {
+				return fail(l, "stable outside type")
+			}
+			for _, f := range strings.Fields(strings.ReplaceAll(rest, ",", " ")) {
+				curT.Stable[f] = true
 			}
 		case "guarded_by":
 			if curT == nil {
